@@ -12,6 +12,7 @@ mod model;
 mod props;
 mod rangelab;
 mod report;
+mod revsecrets;
 mod rng;
 mod schnorr;
 mod session;
@@ -33,6 +34,29 @@ fn main() {
     if args[1] == "--decode-one" {
         std::panic::set_hook(Box::new(|_| {}));
         props::c15::decode_one(&args[2], &args[3]);
+        return;
+    }
+    if args[1] == "--find-revsecrets" {
+        // one-off search (results are committed in src/revsecrets.rs): secrets `tag + counter` whose SHA3-256(secret || i)
+        // is not a canonical scalar for i < min_index.  usage: --find-revsecrets <min_index> <start> <count>
+        let min_index: u8 = args[2].parse().unwrap();
+        let start: u64 = args[3].parse().unwrap();
+        let count: u64 = args[4].parse().unwrap();
+        let threads = 16u64;
+        std::thread::scope(|s| {
+            for t in 0..threads {
+                s.spawn(move || {
+                    let mut k = start + t;
+                    while k < start + count {
+                        let secret = revsecrets::candidate(k);
+                        if let Some(i) = revsecrets::first_valid_index(&secret, 255) {
+                            if i >= min_index { println!("{} {}", k, i); }
+                        }
+                        k += threads;
+                    }
+                });
+            }
+        });
         return;
     }
     let prop = args[1].clone();
